@@ -1745,12 +1745,15 @@ class Rebalance(Algo):
 
         # If cash is set (it should be a value between 0-1 representing the
         # proportion of cash to keep), calculate the new 'base'
+        # The cash fraction scales the target weights, not the base: the delta
+        # against each child's current weight must be taken on the full base.
+        scale = 1.0
         if "cash" in target.temp and not target.fixed_income:
-            base = base * (1 - target.temp["cash"])
+            scale = 1 - target.temp["cash"]
 
         # Turn off updating while we rebalance each child
         for item in targets.items():
-            target.rebalance(item[1], child=item[0], base=base, update=False)
+            target.rebalance(item[1] * scale, child=item[0], base=base, update=False)
 
         # Now update
         target.root.update(target.now)
